@@ -50,7 +50,7 @@ type SignSpec struct {
 	Key     string `json:"key"`                // fixture name: idp | idp2 | idpenc | attacker | idpec ...
 	Method  string `json:"method,omitempty"`   // signature method URI; "" = rsa-sha256 / ecdsa-sha256 by key type
 	Canon   string `json:"canon,omitempty"`    // "" | exc | exc-comments | c14n11 | c14n10
-	KeyInfo string `json:"key_info,omitempty"` // "" = X509 certificate of Key | none | cert:<fixture> (certificate of another key)
+	KeyInfo string `json:"key_info,omitempty"` // "" = X509 certificate of Key | none | cert:<fixture> (certificate of another key) | chain:<fixture>,<fixture>
 }
 
 // Confirmation is one SubjectConfirmation.
@@ -322,6 +322,18 @@ func Sign(el *etree.Element, s *SignSpec, atEnd bool) (*etree.Element, error) {
 	case len(s.KeyInfo) > 5 && s.KeyInfo[:5] == "cert:":
 		if ce := sig.FindElement("./KeyInfo/X509Data/X509Certificate"); ce != nil {
 			ce.SetText(fix.Get(s.KeyInfo[5:]).CertB64())
+		}
+	case len(s.KeyInfo) > 6 && s.KeyInfo[:6] == "chain:":
+		// several certificates in one X509Data, in the given order (fixture names, comma separated)
+		if xd := sig.FindElement("./KeyInfo/X509Data"); xd != nil {
+			for _, ch := range xd.ChildElements() {
+				xd.RemoveChild(ch)
+			}
+			for _, name := range strings.Split(s.KeyInfo[6:], ",") {
+				ce := xd.CreateElement("X509Certificate")
+				ce.Space = xd.Space
+				ce.SetText(fix.Get(name).CertB64())
+			}
 		}
 	}
 	PlaceSignature(el, sig, atEnd)
